@@ -9,7 +9,7 @@ from typing import Any
 
 from harness import c02_util as U
 from harness.common import VERIF, Ck, coq_list, coq_str
-from translate import c02_tables, c03_basetok, c03_errfmt, c03_kvparse
+from translate import c02_hstring, c02_tables, c03_basetok, c03_errfmt, c03_kvparse
 
 MANIFEST = dict(
     technique='Rocq proof (generic chunked-reader = flat-reader simulation for every reader program; totality, progress, '
@@ -1483,6 +1483,9 @@ def run(ck: Ck) -> None:
     ok_k = ck.translate('KvParseSites_gen', c03_kvparse.translate)
     ok_b = ck.translate('BaseTokSites_gen', c03_basetok.translate)
     ok_e = ck.translate('ErrFmt_gen', c03_errfmt.translate)
+    ok_h = ck.translate('HsRows_gen', c02_hstring.translate)      # _handle_string is part of the chunk-independence model as well
+    if not ok_h:
+        ck.gen('HsRows_gen', c02_hstring.EMPTY_GEN, {'failed_closed': True})
     built = ok_t and ok_k and ok_b and ok_e and ck.build(['Props/C03.vo', 'Text/TokEnum.vo', 'Text/KvErrGen.vo', 'Text/BaseTokEnum.vo', 'Text/ErrFmtGen.vo'])
     if built:
         started = start_exhaustive_model(ck)
